@@ -8,14 +8,17 @@
   the handler model exchanging the model's messages): any sequence of creations, rekeys and deletions started by either end —
   with every refusal, every INVALID_KE_PAYLOAD round, the delete that follows a rekey and the delete of a CHILD_SA the initiator
   cannot accept — and of deletions started by both ends at once leaves the ends mirror images of each other, whatever SPI values
-  coincide across the ends.  For overlapping exchanges other than crossing deletes, and for IKE_SA rekeys, it is NOT proved: it
-  is explored exhaustively to a bounded depth and by random walks on the real code (harness/c09.py).
+  coincide across the ends; and an IKE_SA rekey conversation (with its INVALID_KE_PAYLOAD rounds, its refusals and the deletion of
+  the replaced IKE_SA) leaves two successors that agree as their predecessors did and know each other's SPIs.  For overlapping
+  exchanges other than crossing deletes it is NOT proved: it is explored exhaustively to a bounded depth and by random walks on the
+  real code (harness/c09.py).
 -/
 import PyIkev2.Proofs.Machine
 import PyIkev2.Gen.Machine
 import PyIkev2.Proofs.HandlersCollide
 import PyIkev2.Proofs.TwoEnds
 import PyIkev2.Proofs.TwoEndsCreate
+import PyIkev2.Proofs.TwoEndsRekey
 
 namespace PyIkev2.Props.C09
 open PyIkev2 PyIkev2.Impl
@@ -338,5 +341,76 @@ def exRich (x : Option (HSt × HSt)) : Option (List (List Transform × Nat × Li
 example : exRich (opRun 0 4 (exA0, exB0) [.create true exC0]) =
     some [(exCP.transforms, 1, [exTs [10,0,0,1]], [exTs [10,0,0,2]]), (exCP.transforms, 1, [exTs [10,0,0,1]], [exTs [10,0,0,2]])] := by
   decide +kernel
+
+/-! ### two ends: agreement through an IKE_SA rekey
+
+The rekey conversation is `converse` again: CREATE_CHILD_SA with an IKE proposal (responder: a successor object with the CHILD_SAs
+handed over, or one error notification and nothing changed; initiator: retry after INVALID_KE_PAYLOAD, back to ESTABLISHED after
+TEMPORARY_FAILURE, give up after NO_ADDITIONAL_SAS, or accept — hand over — ask for the deletion of the replaced IKE_SA), then the
+INFORMATIONAL exchange that ends the replaced IKE_SA at both ends. -/
+
+/-- the responder's side: a successor that holds this IKE_SA's CHILD_SAs, is ESTABLISHED, knows the initiator's new SPI and whose
+    own SPI is in the reply — or one notification and nothing changed -/
+theorem c09_concrete_ike_rekey_responder (now : Nat) (request : Msg) (x : XSa) (su tm : Option XSa) (p0 : Proposal) (rest : List Proposal)
+    (hsa : paySA request true = .ok (p0 :: rest)) (hp0 : p0.proto = 1) :
+    Tri (Objs x su tm) (processCreateChildSaRequest now request)
+      (fun res s => ∃ payloads, res = .reply (mkResponse s.me.core 36 payloads) ∧
+        (RekeyGranted request x p0 payloads s ∨ ((s.me = x ∧ s.succ = su) ∧ ErrReply payloads)))
+      (fun _ _ => True) :=
+  processCreateChildSaRequest_ike_tri now request x su tm p0 rest hsa hp0
+
+/-- the initiator's side: the four things its handler can come to (`AOutR`) -/
+theorem c09_concrete_ike_rekey_initiator (now : Nat) (response : Msg) (y na0 : XSa) (tm : Option XSa)
+    (hst : y.core.st = stREK_IKE_SA_REQ_SENT) :
+    Tri (Objs y (some na0) tm) (processCreateChildSaResponse now response) (AOutR now y na0 tm response) (fun _ _ => True) :=
+  processCreateChildSaResponse_ike_tri now response y na0 tm hst
+
+/-- **an IKE_SA rekey between two ends that agree** (`RekeyEnd`): if no handler raises and the conversation ends, either both replaced
+    objects are DELETED without CHILD_SAs and the successors, promoted, agree as their predecessors did and know each other's SPIs; or
+    the rekey was refused and the ends agree as before; or the initiator gave up and both IKE_SAs are gone -/
+theorem c09_concrete_ike_rekey_keeps_the_ends_agreed (now fuel : Nat) (a b a' b' : HSt) (h : Agree a b)
+    (hconf : a.me.ext.conf.proposal.proto = 1)
+    (hspi0 : ∀ na0, (generateRekeyIkeSaRequest now a).2.succ = some na0 → na0.core.mySpi ≠ [])
+    (hx : rekeyExchange now fuel a b = some (a', b')) : RekeyEnd a b a' b' :=
+  rekeyExchange_outcome now fuel a b a' b' h hconf hspi0 hx
+
+/-- CHILD_SA exchanges, an IKE_SA rekey that succeeds (the replaced IKE_SA is DELETED and has handed its CHILD_SAs over), more
+    CHILD_SA exchanges on the successors: the ends agree at the end -/
+theorem c09_concrete_child_exchanges_around_an_ike_rekey (now fuel : Nat) (ops1 ops2 : List ChildOp) (a b a1 b1 a2 b2 na nb a3 b3 : HSt)
+    (h : Agree a b) (h1 : opRun now fuel (a, b) ops1 = some (a1, b1))
+    (hconf : a1.me.ext.conf.proposal.proto = 1)
+    (hspi0 : ∀ na0, (generateRekeyIkeSaRequest now a1).2.succ = some na0 → na0.core.mySpi ≠ [])
+    (h2 : rekeyExchange now fuel a1 b1 = some (a2, b2))
+    (hdel : a2.me.core.st = stDELETED) (hkids : a1.me.ext.kids ≠ []) (hk2 : a2.me.ext.kids = [])
+    (hna : promote a2 = some na) (hnb : promote b2 = some nb)
+    (h3 : opRun now fuel (na, nb) ops2 = some (a3, b3)) : Agree a3 b3 := by
+  have hag1 := Agree.opRun now fuel ops1 a b a1 b1 h h1
+  rcases rekeyExchange_outcome now fuel a1 b1 a2 b2 hag1 hconf hspi0 h2 with ⟨na', nb', e1, e2, hag, _⟩ | ⟨hag, _, _⟩ | ⟨_, _, hk⟩
+  · rw [hna] at e1; rw [hnb] at e2; cases e1; cases e2
+    exact Agree.opRun now fuel ops2 na nb a3 b3 hag h3
+  · rw [hag.sta] at hdel; cases hdel
+  · rw [hk2] at hk; exact absurd hk.symm hkids
+
+/-- non-vacuity: after the ACQUIRE of the example above, `a` rekeys the IKE_SA: both replaced objects are DELETED without CHILD_SAs, the
+    promoted successors are ESTABLISHED, each has the other's SPI as its peer SPI, and the CHILD_SA went with them -/
+def exIkeP : Proposal :=
+  { num := 1, proto := 1, spi := [], transforms := [⟨1, 12, some 256⟩, ⟨3, 12, none⟩, ⟨2, 5, none⟩, ⟨4, 14, none⟩] }
+def exA1 : HSt :=
+  { exA0 with me := { exA0.me with ext := { exA0.me.ext with conf := { exConfA with proposal := exIkeP } } }, tape := { vals := [.bytes [1], .num 0, .bytes [5,5,5,5,5,5,5,5], .num 7, .bytes [11], .bytes [12], .flag true] } }
+def exB1 : HSt :=
+  { exB0 with me := { exB0.me with ext := { exB0.me.ext with conf := { exConfB with proposal := exIkeP } } }, tape := { vals := [.bytes [2], .bytes [8,8,8,8], .num 0, .bytes [6,6,6,6,6,6,6,6], .num 9, .bytes [13], .bytes [14], .flag true] } }
+def exRekeyed : Option (HSt × HSt) := (opRun 0 4 (exA1, exB1) [.create true exC0]).bind fun x => rekeyExchange 100 6 x.1 x.2
+def exOld (x : Option (HSt × HSt)) : Option (List Nat) :=
+  x.map fun x => [x.1.me.core.st, x.2.me.core.st, x.1.me.ext.kids.length, x.2.me.ext.kids.length]
+def exNewSpis (x : Option (HSt × HSt)) : Option (List (List Bytes)) :=
+  x.map fun x => [((promote x.1).map fun n => [n.me.core.mySpi, n.me.core.peerSpi]).getD [],
+                  ((promote x.2).map fun n => [n.me.core.mySpi, n.me.core.peerSpi]).getD []]
+def exNewKids (x : Option (HSt × HSt)) : Option (List (List (Bytes × Bytes × Nat))) :=
+  x.map fun x => [((promote x.1).map fun n => n.me.ext.kids.map Child.view).getD [],
+                  ((promote x.2).map fun n => n.me.ext.kids.map Child.peerView).getD []]
+example : exOld exRekeyed = some [21, 21, 0, 0] := by decide +kernel
+example : exNewSpis exRekeyed =
+    some [[[5,5,5,5,5,5,5,5], [6,6,6,6,6,6,6,6]], [[6,6,6,6,6,6,6,6], [5,5,5,5,5,5,5,5]]] := by decide +kernel
+example : exNewKids exRekeyed = some [[([7,7,7,7], [8,8,8,8], 3)], [([7,7,7,7], [8,8,8,8], 3)]] := by decide +kernel
 
 end PyIkev2.Props.C09
